@@ -109,6 +109,9 @@ pub mod rrt;
 #[path = "path_plan/rrt_to.rs"]
 mod rrt_to;
 
+#[cfg(rs_opw_verif)]
+pub mod verif_hooks;
+
 #[cfg(test)]
 #[cfg(feature = "allow_filesystem")]
 mod tests;
